@@ -71,7 +71,8 @@ fn one_stream(ctx: &Ctx, acc: &mut Acc, l: L, lang: &text2num::Language, syms: &
             })
             .collect();
         let toks: Vec<HTok> = words.iter().enumerate().map(|(i, w)| HTok::new(i, w)).collect();
-        let thrs: &[f64] = if cv == 0 { &T } else { &[0.0, 10.0] };
+        // all thresholds on the lower-case rendering (vocabulary-wide streams of 3 words: 0 and 10 only)
+        let thrs: &[f64] = if cv == 0 && (cased || syms.len() != 3) { &T } else { &[0.0, 10.0] };
         for &t in thrs {
             acc.transitions += 2 * toks.len() as u64;
             match guard(|| (stream::find(&toks, lang, t), stream::find_iter(&toks, lang, t))) {
@@ -178,33 +179,14 @@ pub fn run(tier: Tier) -> i32 {
         }));
         // big numbers: nine, tens, hundred, one and every scale word of the vocabulary (cardinal and ordinal), so that
         // numerals of 17 and more digits — beyond what a float can hold exactly — are reached
-        let mut big: Vec<String> = vec![c.unit2.clone(), c.tens.clone(), c.hundred.clone(), c.one.clone(), c.thousand.clone(), c.million.clone(), c.milliard.clone()];
-        if l == L::It {
-            big.extend(["mila", "milioni", "bilione", "bilioni"].iter().map(|x| x.to_string()));
-        }
-        if l == L::Pt {
-            big.extend(["milionésimo", "bilionésimo", "bilionésima"].iter().map(|x| x.to_string()));
-        }
-        // one representative per (value, cardinal/ordinal) among the vocabulary's scale words
-        let mut seen_keys: Vec<(String, bool)> = vec![];
-        for w in vocab::number_words(l) {
-            if let Ok(Ok(d)) = guard(|| text2num::text2digits(&w, &lang)) {
-                let digits: String = d.chars().take_while(|c| c.is_ascii_digit()).collect();
-                let key = (digits.clone(), d.len() > digits.len());
-                if digits.len() >= 4 && digits.starts_with('1') && digits[1..].bytes().all(|b| b == b'0') && !seen_keys.contains(&key) {
-                    seen_keys.push(key);
-                    if !big.contains(&w) {
-                        big.push(w);
-                    }
-                }
-            }
-        }
+        let mut big: Vec<String> = vocab::big_number_words(l, &lang);
         sizes.push(json!({"lang": l.code(), "big_number_alphabet": big}));
         big.push(c.small_ord.clone());
         big.push(c.large_ord.clone());
         let (nine, third) = (c.unit2.clone(), c.small_ord.clone());
         total.merge(explore::all_sequences2(&big, kbig, |syms, acc| {
-            if syms.len() >= 3 {
+            // the deepest level of the thorough tier only over the first 12 symbols
+            if syms.len() >= 3 && (syms.len() < 6 || syms.iter().all(|s| big.iter().position(|b| b == s).map_or(false, |i| i < 12))) {
                 let toks: Vec<HTok> = syms.iter().enumerate().map(|(i, w)| HTok::new(i, w)).collect();
                 one_token_list(&ctx, acc, l, &lang, &toks);
                 // exact digits: when the stream is one number and so is the stream without its last word, a final
